@@ -427,7 +427,7 @@ var c08NilPrograms = []string{"add", ". + {a: 1}", "{a: 1} + .", ". + [1]", "[1]
 func init() {
 	run.Register(&run.Prop{
 		ID: "C08", Level: "exploration", MinNontrivial: 5000,
-		Rule:        "library: a case is (query bytes, input, variable value). Parse, String, Compile, Run/Next (300 outputs, instruction budget, advancing after error values), Marshal, Preview, TypeOf and every error's text are called under recover(); a ParseError's Offset must lie in [0,len] with len(Token) <= Offset; emitted values must consist of the supported Go types; a process-fatal error (stack overflow, concurrent map writes, ...) kills the worker and is attributed to the case by the journal. Queries: byte- and token-level mutations of every corpus query, calls of every builtin name/arity from `builtins` and of the user-reachable `_`-prefixed internals with wrong-typed, boundary and wrong-arity arguments in path/update/try/limit contexts; inputs: the type universe in every Go number representation incl. NaN/Inf/invalid UTF-8/nil containers. command: random combinations of every flag of the command with valid and invalid arguments, queries, stdin bytes and files; stderr is scanned for a Go stack trace and the exit status must be a documented one (0-5, or the halt_error code); thorough also injects write(ENOSPC)/read(EIO) faults on the n-th call with strace. Resource exhaustion (budget, heap limit, timeout) is counted as inconclusive. Non-trivial = distinct cases (library: query longer than 2 bytes).",
+		Rule:        "library: a case is (query bytes, input, variable value). Parse, String, Compile, Run/Next (300 outputs, instruction budget, advancing after error values), Marshal, Preview, TypeOf and every error's text are called under recover(); a ParseError's Offset must lie in [0,len] with len(Token) <= Offset; emitted values must consist of the supported Go types; a process-fatal error (stack overflow, concurrent map writes, ...) kills the worker and is attributed to the case by the journal. Queries: byte- and token-level mutations of every corpus query, calls of every builtin name/arity from `builtins` and of the user-reachable `_`-prefixed internals with wrong-typed, boundary and wrong-arity arguments in path/update/try/limit contexts; inputs: the type universe in every Go number representation incl. NaN/Inf/invalid UTF-8/nil containers. loader: 8 kinds of module loader (no methods, each single method, all, always failing, init modules) x 11 module maps (self-including, mutually importing, three-module circle, diamond, unparsable, data inside a module, init module including itself) x 16 queries under recover(). paths: every path of up to two elements from 13 well- and ill-typed elements in 25 getpath/setpath/delpaths/pick/update forms and every ordered pair of such paths from 7 elements in 10 two-path forms, over 6 inputs. command: modules that include or import each other in a circle as files; random combinations of every flag of the command with valid and invalid arguments, queries, stdin bytes and files; stderr is scanned for a Go stack trace and the exit status must be a documented one (0-5, or the halt_error code); thorough also injects write(ENOSPC)/read(EIO) faults on the n-th call with strace. Resource exhaustion (budget, heap limit, timeout) is counted as inconclusive. Non-trivial = distinct cases (library: query longer than 2 bytes).",
 		Assumptions: []string{"programs that legitimately need unbounded time or memory are outside the claim: instruction budget, 3 GiB heap watchdog and timeouts classify them as inconclusive", "a stack overflow within the instruction budget is a violation (it means unbounded recursion on a bounded value)"},
 		Body: func(c *run.Ctx) {
 			r := c.Rand("c08")
@@ -461,6 +461,13 @@ func init() {
 			// two elements from a pool of well- and ill-typed elements, and every ordered pair of such paths for the multi-path forms
 			for _, t := range c08PathHostile() {
 				kC08Lib.Do(c, t)
+			}
+			// module loaders of every shape, modules that import each other in a circle
+			for _, t := range c08LoaderCases() {
+				kC08Loader.Do(c, t)
+			}
+			for _, t := range c08CycleCLI() {
+				kC08CLI.Do(c, t)
 			}
 			qs := gen.AllCorpusQueries()
 			names := builtinNames()
